@@ -25,3 +25,6 @@ import McpModel.Resume.Props
 import McpModel.Resume.Witness
 import McpModel.Resume.Accept08
 import McpModel.Resume.Sound08
+import McpModel.Resume.Accept10
+import McpModel.Resume.Sound10
+import McpModel.Resume.WitnessBridge
